@@ -87,6 +87,7 @@ func report(eng *Engine, o runOpts, results []*FuncResult, all []*Obligation, tL
 	var samples []any
 	replayDir := filepath.Join(o.verif, "replays", o.prop)
 	inlinedSet := map[string]bool{}
+	guardsUndecided := []string{}
 	for _, r := range results {
 		functions = append(functions, r.Contract.FullKey())
 		if r.Contract.Trusted {
@@ -118,6 +119,11 @@ func report(eng *Engine, o runOpts, results []*FuncResult, all []*Obligation, tL
 			nObl++
 			nDis++
 			bySolver[ob.Solver]++
+		case ob.ExpectSat && ob.Status != "violated":
+			// a vacuity guard (pre-sat / cover) the solvers could not decide: not an
+			// obligation of the property; listed, not counted
+			rep.Status = "guard-undecided(" + ob.Status + ")"
+			guardsUndecided = append(guardsUndecided, ob.Name)
 		case kf != nil:
 			rep.Status = "known-finding(" + ob.Status + ")"
 			kfLines = append(kfLines, fmt.Sprintf("KNOWN-FINDING: property=%s %s: %s", o.prop, ob.Name, kf.What))
@@ -193,6 +199,7 @@ func report(eng *Engine, o runOpts, results []*FuncResult, all []*Obligation, tL
 			"solver_time_s": solverTime,
 			"load_s":        tLoad.Seconds(), "vcgen_s": tGen.Seconds(), "solve_wall_s": tSolve.Seconds(),
 			"known_findings": kfLines,
+			"vacuity_guards_undecided": guardsUndecided,
 			"outside_subset": outside,
 			"obligation_list": reports,
 			"samples":       samples,
